@@ -224,6 +224,14 @@ def classify (univ : List Cert) (ctx : StepCtx) (modelTok implTok : String) : Li
 
 def handleShim (op : String) (args : List String) (impl : Option (List String)) : Option Reply :=
   match op, args with
+  | "fwdmax", _ =>
+    -- raw requests whose reply is just below / at / just above the 16 MiB framing bound: relayed
+    -- byte for byte, respectively an error; the statement allows one outcome
+    some ⟨["ok"], impl.map fun out =>
+      match out with
+      | ["ok"] => "ok"
+      | [o] => if ((o.splitOn "crash").length > 1) then "bad:crash" else "bad:C10.raw-request-at-size-bound"
+      | _ => "bad:protocol"⟩
   | "salgo", _ =>
     -- signers handed out by the real shim, used with every algorithm name, against the underlying
     -- agent's own signers: the statement ("same effect as on the underlying agent") allows one outcome
